@@ -103,13 +103,13 @@ PROPS = {
         claim="Packet level: for ALL packets, some written pdrLookup entry matches iff the PDR denotes the packet (on top of C17); priorities ordered as precedence. "
               "Table level: establishment/deletion commands turn image(store) into image(store') on keyed tables; disjoint-key commands commute. "
               "Agent level, every history: on the full agent model with the real key strings of the four lookup tables, from start-up on and after every association setup, PFD update, "
-              "establishment (accepted or refused), deletion, report 'context not found', association ending, and Session Modification that only updates FARs, only removes rules or only creates rules (stable session-QER marking; for removals pairwise different keys within the session; for creations new rule IDs, no CHOOSE F-TEID, keys no other session has), over any number of associations and sessions, each table read as a map "
+              "establishment (accepted or refused), deletion, report 'context not found', association ending, and Session Modification that only updates FARs, only removes rules or only creates rules (stable session-QER marking; for removals pairwise different keys within the session; for creations new rule IDs, no CHOOSE F-TEID, keys no other session has) - and any accepted modification that mixes these three kinds, which is proved equal to its three parts sent one after the other (mixed_modification_is_three_messages), over any number of associations and sessions, each table read as a map "
               "equals Agent.image of the stored sessions and nothing lies under a key no stored session has (tables_are_the_image_along_every_history, invariant Agent.Inv, by induction over the history). "
               "T1: the model's action encoding / allocation test are proved equal to the regenerated bess.setActionValue / needAllocIP on all inputs. "
               "Agent level: executable model of establish/modify/delete + MarkSessionQer + bess.go command stream, tied to the REAL agent (child process, public API) "
               "by trace acceptance: after every response the harness BESS server's tables must equal the model's and the image of the live sessions; "
               "restart after SIGKILL must leave the four lookup modules empty.",
-        note="partial: the history theorem covers every request kind except Session Modifications that update PDRs / QERs or mix kinds of IEs (for which the statement is false of the code: key-changing Update PDR, "
+        note="partial: the history theorem covers every request kind except Session Modifications that carry Update PDR / Update QER (for which the statement is false of the code: key-changing Update PDR, "
              "QER relabelling - open findings); those are tied by T2 only; BESS itself is a table model "
              "(semantics of pkg/fake_bess). Envelope of the theorems: IPv4, distinct rule IDs per session, distinct match keys of live PDRs, key-preserving updates; "
              "key-changing Update PDRs are generated too and judged by the oracle (open finding C03-update-pdr-changes-key).",
